@@ -69,6 +69,14 @@ def check_sequences(ctx, body, table, full, iter_seq, rule, what, max_visits=1):
         rk = ret_kind(st.env.get(0))
         if st.cut:
             exp = full + iter_seq
+            # a loop that performs no protocol step (filling a table, converting a string): only the order of what preceded it is checked
+            head = path[-1]
+            cyc = set(path[path.index(head):-1])
+            names = {c for c, _ in table}
+            if not any(ev[0] == 'call' and ev[1].block in cyc and ev[1].callee in names for ev in st.events):
+                ctx.check(seq == exp[:len(seq)], rule, '%s:prefix' % what, '%s: steps before a silent loop are a prefix of the mandated sequence' % what, body.where(),
+                          '%s: the steps %s performed before a loop are not a prefix of the mandated order %s' % (what, seq, exp))
+                continue
             n_cut += 1
             ctx.check(seq == exp, rule, '%s:iter' % what, '%s loop iteration: %s' % (what, ' -> '.join(iter_seq)), body.where(),
                       '%s: a loop iteration performs %s instead of %s' % (what, seq, exp))
@@ -128,13 +136,17 @@ def run(ctx):
 
     # ---- R03.2 mcs::Client::connect -----------------------------------------------------------------------
     mc = ctx.body('core::mcs::Client::<S>::connect')
+    # stated over the primitive sends / receives / parses: the thin wrapper around the connect-response read is looked through, so that
+    # merging it into connect (or splitting connect further) does not change the sequence
+    import inline
+    mc = inline.force(P, mc, ['core::mcs::Client::<S>::read_connect_response'])
     wl = msg_label([('core::mcs::erect_domain_request', 'send:erect-domain'), ('core::mcs::attach_user_request', 'send:attach-user'),
                     ('core::mcs::channel_join_request', 'send:channel-join')])
     table = [('core::mcs::Client::<S>::write_connect_initial', 'send:connect-initial'),
-             ('core::mcs::Client::<S>::read_connect_response', 'recv:connect-response'),
+             ('core::gcc::read_conference_create_response', 'parse:connect-response'),
              (XW, wl), (XR, 'recv'), ('core::mcs::read_attach_user_confirm', 'parse:attach-user-confirm'),
              ('core::mcs::read_channel_join_confirm', 'parse:channel-join-confirm')]
-    full = ['send:connect-initial', 'recv:connect-response', 'send:erect-domain', 'send:attach-user', 'recv', 'parse:attach-user-confirm']
+    full = ['send:connect-initial', 'recv', 'parse:connect-response', 'send:erect-domain', 'send:attach-user', 'recv', 'parse:attach-user-confirm']
     it = ['send:channel-join', 'recv', 'parse:channel-join-confirm']
     ok, cut, err = check_sequences(ctx, mc, table, full, it, 'R03.2', 'mcs::Client::connect')
     ctx.floor('R03.2', 'success paths of mcs::Client::connect', ok, 1)
